@@ -383,6 +383,13 @@ class Executor:
                 v = read_ref(state, state.env[n])
                 if T.is_mutable(v.ty) and n in tracked:
                     self.havoc_name(state, n, keep_type=True)
+        # a simple assignment that completes normally has bound its target name(s)
+        if isinstance(node, (ast.Assign, ast.AnnAssign, ast.AugAssign)):
+            tgts = node.targets if isinstance(node, ast.Assign) else [node.target]
+            for t in tgts:
+                for nn in ast.walk(t):
+                    if isinstance(nn, ast.Name) and isinstance(nn.ctx, ast.Store) and nn.id in state.env:
+                        state.asg[nn.id] = z3.BoolVal(True)
         if bad and why == 'untracked':
             raise Unsupported(f"internal: tracked {bad} in untracked statement")
         outs.append(Outcome('normal', state))
